@@ -106,6 +106,9 @@ SUBMISSIONS = [
                                                     'nums = list[int]()\nprint(counts, nums)\n'}},
     {'name': 'boolop', 'files': {'answer.py': 'name = input("name?") or "stranger"\nprint("Hello " + name)\ndef add(a, b):\n    return a + b\n'}},
     {'name': 'string-annotation', 'files': {'answer.py': 'def add(a: "int", b: "int") -> "int":\n    return a + b\nprint(add("x", "y"))\n'}},
+    # an attribute stored on a FUNCTION object, then (in another submission) an attribute of a function read that was never stored
+    {'name': 'func-attr-assign', 'files': {'answer.py': 'def add(a, b):\n    return a + b\nadd.calls = 0\nadd.calls = add.calls + 1\nprint(add(1, 2), add.calls)\n'}},
+    {'name': 'func-attr-use', 'files': {'answer.py': 'def add(a, b):\n    return a + b\ndef other():\n    return 1\nprint(add(1, 2))\nprint(other.calls + 1)\n'}},
     {'name': 'unused', 'files': {'answer.py': 'def add(a, b):\n    return a + b\nleftover = 5\nfor i in [1, 2]:\n    print(i + 5)\nprint(1)\n'}},
 ]
 ALWAYS = [(('pools-subclass', 'add-ok'), ('pools-c', 'add-ok')), (('pools-subclass', 'add-ok'), ('pools-d', 'add-ok')),
@@ -123,7 +126,9 @@ ALWAYS = [(('pools-subclass', 'add-ok'), ('pools-c', 'add-ok')), (('pools-subcla
           (('pools', 'add-ok'), ('override-twice', 'add-ok'), ('pools-b', 'add-ok')),
           (('crash', 'add-ok'), ('override-child-only', 'zerodiv'), ('plain', 'zerodiv')),
           (('turtle-count', 'turtle-use'), ('turtle-count', 'turtle-use')), (('plain', 'turtle-use'), ('turtle-count', 'turtle-use')),
-          (('turtle-count', 'turtle-use'), ('turtle-count', 'add-ok'))]
+          (('turtle-count', 'turtle-use'), ('turtle-count', 'add-ok')),
+          (('plain', 'func-attr-assign'), ('plain', 'func-attr-use')), (('static+tifa', 'func-attr-assign'), ('static+tifa', 'func-attr-use')),
+          (('plain', 'func-attr-use'), ('plain', 'func-attr-assign'), ('plain', 'func-attr-use'))]
 FIELDS = ('label', 'title', 'message', 'correct', 'score', 'output', 'error')
 
 
